@@ -558,8 +558,13 @@ func init() {
 				}
 			}
 		}
-		for _, s := range []string{"null", "{}", "[]", `{"type":"Point"}`, `{"type":"GeometryCollection","geometries":[null]}`, `{"type":"Feature","geometry":null}`, ""} {
-			c05Raw(c, "geojson(literal)", []byte(s), c05JSONDecs)
+		for _, s := range []string{"null", "{}", "[]", `{"type":"Point"}`, `{"type":"GeometryCollection","geometries":[null]}`, `{"type":"Feature","geometry":null}`, "",
+			`{"type":"Feature","geometry":{"type":"Point","coordinates":null}}`, `{"type":"FeatureCollection","features":[null]}`, `{"type":"FeatureCollection","features":null}`,
+			`{"type":"Polygon","coordinates":[null]}`, `{"type":"MultiPolygon","coordinates":[[null]]}`, `{"type":null,"coordinates":null}`, "true", "0", `""`} {
+			// every literal also with JSON whitespace around it (the exported Unmarshal functions get the caller's bytes as they are)
+			for _, ws := range [][2]string{{"", ""}, {" ", ""}, {"", " "}, {"\n", "\n"}, {"\t\r ", ""}} {
+				c05Raw(c, "geojson(literal)", []byte(ws[0]+s+ws[1]), c05JSONDecs)
+			}
 		}
 	})
 }
